@@ -7,6 +7,8 @@ mod builder;
 mod index;
 mod reader;
 mod topic_clean;
+#[cfg(walrus_verif)]
+mod verif_access;
 mod walrus;
 mod walrus_read;
 mod walrus_write;
